@@ -1,7 +1,6 @@
 package seqx
 
 import (
-	"runtime"
 	"unsafe"
 
 	"github.com/flowmatters/openwater-core/data"
@@ -54,7 +53,6 @@ func CBackend[T Number, CT Number, A ND[T, A]](typ string, ctor func(unsafe.Poin
 				buf[margin+i] = CT(v)
 			}
 			r := &Root[T, A]{Arr: ctor(unsafe.Pointer(&buf[margin]), dims)}
-			runtime.SetFinalizer(r, func(*Root[T, A]) { cFree(mem) })
 			r.Raw = func() []T {
 				out := make([]T, n)
 				for i := range out {
@@ -88,22 +86,46 @@ func runner[T Number, A ND[T, A]](be *Backend[T, A]) Runner {
 
 // Runners returns the 8 element types x 2 back-ends.
 func Runners() []Runner {
-	return []Runner{
-		runner(GoBackend("float64", data.ArrayFromSliceFloat64, data.ScaleFloat64Array, data.AddToFloat64Array, data.ApplyFunc1Float64)),
-		runner(GoBackend("float32", data.ArrayFromSliceFloat32, data.ScaleFloat32Array, data.AddToFloat32Array, data.ApplyFunc1Float32)),
-		runner(GoBackend("int32", data.ArrayFromSliceInt32, data.ScaleInt32Array, data.AddToInt32Array, data.ApplyFunc1Int32)),
-		runner(GoBackend("uint32", data.ArrayFromSliceUint32, data.ScaleUint32Array, data.AddToUint32Array, data.ApplyFunc1Uint32)),
-		runner(GoBackend("int64", data.ArrayFromSliceInt64, data.ScaleInt64Array, data.AddToInt64Array, data.ApplyFunc1Int64)),
-		runner(GoBackend("uint64", data.ArrayFromSliceUint64, data.ScaleUint64Array, data.AddToUint64Array, data.ApplyFunc1Uint64)),
-		runner(GoBackend[int, data.NDInt]("int", data.ArrayFromSliceInt, nil, nil, nil)),
-		runner(GoBackend[uint, data.NDUint]("uint", data.ArrayFromSliceUint, nil, nil, nil)),
-		runner(CBackend[float64, float64]("float64", cdata.NewFloat64CArray, data.ScaleFloat64Array, data.AddToFloat64Array, data.ApplyFunc1Float64)),
-		runner(CBackend[float32, float32]("float32", cdata.NewFloat32CArray, data.ScaleFloat32Array, data.AddToFloat32Array, data.ApplyFunc1Float32)),
-		runner(CBackend[int32, int32]("int32", cdata.NewInt32CArray, data.ScaleInt32Array, data.AddToInt32Array, data.ApplyFunc1Int32)),
-		runner(CBackend[uint32, uint32]("uint32", cdata.NewUint32CArray, data.ScaleUint32Array, data.AddToUint32Array, data.ApplyFunc1Uint32)),
-		runner(CBackend[int64, int64]("int64", cdata.NewInt64CArray, data.ScaleInt64Array, data.AddToInt64Array, data.ApplyFunc1Int64)),
-		runner(CBackend[uint64, uint64]("uint64", cdata.NewUint64CArray, data.ScaleUint64Array, data.AddToUint64Array, data.ApplyFunc1Uint64)),
-		runner(CBackend[int, int32, data.NDInt]("int", cdata.NewIntCArray, nil, nil, nil)),
-		runner(CBackend[uint, uint32, data.NDUint]("uint", cdata.NewUintCArray, nil, nil, nil)),
+	var gos, cs []Runner
+	{
+		g, c := GoBackend("float64", data.ArrayFromSliceFloat64, data.ScaleFloat64Array, data.AddToFloat64Array, data.ApplyFunc1Float64), CBackend[float64, float64]("float64", cdata.NewFloat64CArray, data.ScaleFloat64Array, data.AddToFloat64Array, data.ApplyFunc1Float64)
+		g.Alt, c.Alt = c.New, g.New
+		gos, cs = append(gos, runner(g)), append(cs, runner(c))
 	}
+	{
+		g, c := GoBackend("float32", data.ArrayFromSliceFloat32, data.ScaleFloat32Array, data.AddToFloat32Array, data.ApplyFunc1Float32), CBackend[float32, float32]("float32", cdata.NewFloat32CArray, data.ScaleFloat32Array, data.AddToFloat32Array, data.ApplyFunc1Float32)
+		g.Alt, c.Alt = c.New, g.New
+		gos, cs = append(gos, runner(g)), append(cs, runner(c))
+	}
+	{
+		g, c := GoBackend("int32", data.ArrayFromSliceInt32, data.ScaleInt32Array, data.AddToInt32Array, data.ApplyFunc1Int32), CBackend[int32, int32]("int32", cdata.NewInt32CArray, data.ScaleInt32Array, data.AddToInt32Array, data.ApplyFunc1Int32)
+		g.Alt, c.Alt = c.New, g.New
+		gos, cs = append(gos, runner(g)), append(cs, runner(c))
+	}
+	{
+		g, c := GoBackend("uint32", data.ArrayFromSliceUint32, data.ScaleUint32Array, data.AddToUint32Array, data.ApplyFunc1Uint32), CBackend[uint32, uint32]("uint32", cdata.NewUint32CArray, data.ScaleUint32Array, data.AddToUint32Array, data.ApplyFunc1Uint32)
+		g.Alt, c.Alt = c.New, g.New
+		gos, cs = append(gos, runner(g)), append(cs, runner(c))
+	}
+	{
+		g, c := GoBackend("int64", data.ArrayFromSliceInt64, data.ScaleInt64Array, data.AddToInt64Array, data.ApplyFunc1Int64), CBackend[int64, int64]("int64", cdata.NewInt64CArray, data.ScaleInt64Array, data.AddToInt64Array, data.ApplyFunc1Int64)
+		g.Alt, c.Alt = c.New, g.New
+		gos, cs = append(gos, runner(g)), append(cs, runner(c))
+	}
+	{
+		g, c := GoBackend("uint64", data.ArrayFromSliceUint64, data.ScaleUint64Array, data.AddToUint64Array, data.ApplyFunc1Uint64), CBackend[uint64, uint64]("uint64", cdata.NewUint64CArray, data.ScaleUint64Array, data.AddToUint64Array, data.ApplyFunc1Uint64)
+		g.Alt, c.Alt = c.New, g.New
+		gos, cs = append(gos, runner(g)), append(cs, runner(c))
+	}
+	{
+		g, c := GoBackend[int, data.NDInt]("int", data.ArrayFromSliceInt, nil, nil, nil), CBackend[int, int32, data.NDInt]("int", cdata.NewIntCArray, nil, nil, nil)
+		g.Alt, c.Alt = c.New, g.New
+		gos, cs = append(gos, runner(g)), append(cs, runner(c))
+	}
+	{
+		g, c := GoBackend[uint, data.NDUint]("uint", data.ArrayFromSliceUint, nil, nil, nil), CBackend[uint, uint32, data.NDUint]("uint", cdata.NewUintCArray, nil, nil, nil)
+		g.Alt, c.Alt = c.New, g.New
+		gos, cs = append(gos, runner(g)), append(cs, runner(c))
+	}
+	return append(gos, cs...)
 }
